@@ -40,6 +40,13 @@ class Prop(BaseProp):
             cases.append({"kind": "Ser", "cmds": [rb(n)]})
         for o in range(256):
             cases.append({"kind": "Ser", "cmds": [o]})
+        # every one-byte data element (the values that have a dedicated opcode -- 0x01..0x10, 0x81 -- must still be pushed as data),
+        # and short elements made of one repeated byte / opcode-looking bytes
+        for o in range(256):
+            cases.append({"kind": "Ser", "cmds": ["%02x" % o]})
+        for o in (0x00, 0x01, 0x10, 0x4b, 0x4c, 0x4d, 0x4e, 0x4f, 0x51, 0x60, 0x81, 0xff):
+            for n in (2, 3, 75, 76):
+                cases.append({"kind": "Ser", "cmds": [("%02x" % o) * n]})
         for o in (-1, 256, 1000):
             cases.append({"kind": "Ser", "cmds": [o]})
         valid = []
